@@ -171,6 +171,23 @@ func genC15(t *rapid.T) (c C15Case) {
 		if smallExact && c.P > 12 {
 			c.P = uint(rapid.IntRange(1, 12).Draw(t, "psm"))
 		}
+		if c.FK == "" && rapid.IntRange(0, 11).Draw(t, "hugeprec") == 0 {
+			// a short value carried by a big.Float of enormous precision into a precision-0 receiver: the documented
+			// ceil(x.Prec()*log10 2) at precisions where the product is close to an integer, at 32-bit edges, anywhere
+			c.FM, c.FE = big.NewInt(int64(rapid.IntRange(1, 999).Draw(t, "hp.m"))).String(), rapid.IntRange(-8, 8).Draw(t, "hp.e")
+			switch rapid.IntRange(0, 2).Draw(t, "hp.cls") {
+			case 0:
+				c.FP = uint(rapid.SampledFrom([]uint64{198096465, 396192930, 594289395, 3961929300, 4160025765, 6107016, 12214032, 325147, 254370, 70777, 42039, 28738, 13301,
+					191989449, 204203481, 579517, 904664, 1159034, 1229811, 1<<32 - 1, 1 << 31, 1<<31 + 1, 3435973837}).Draw(t, "hp.tight"))
+			case 1:
+				c.FP = uint(rapid.Uint32Range(1<<20, 1<<32-1).Draw(t, "hp.wide"))
+			default:
+				c.FP = uint(rapid.IntRange(2001, 1<<22).Draw(t, "hp.mid"))
+			}
+			c.P = 0
+			c.Z = genRecvPrev(t, c.P, c.M)
+			return c
+		}
 		if c.FK == "" && rapid.IntRange(0, 4).Draw(t, "shortdec") == 0 {
 			// short decimals d x 10^v held exactly by the big.Float: the mantissa carries 5^v, the binary
 			// exponent is large and positive, yet the expansion has only len(d) digits and must be stored
@@ -334,7 +351,7 @@ func checkC15(c C15Case, o *h.Obs) *h.Fail {
 				exactRat, _ = f.Rat(nil)
 			}
 			if wantPrec == 0 {
-				wantPrec = uint(math.Ceil(float64(f.Prec()) * (math.Ln2 / math.Ln10)))
+				wantPrec = uint(h.CeilLog10_2(uint64(f.Prec())))
 			}
 			maxUlp = 64
 			desc = "SetFloat(" + f.Text('g', 30) + ")"
@@ -581,10 +598,9 @@ func checkC15(c C15Case, o *h.Obs) *h.Fail {
 		}
 		o.NonTrivial()
 		prec := f.Prec()
-		bitsF := float64(c.X.P) * (math.Ln10 / math.Ln2)
-		wantp := uint(math.Max(math.Ceil(bitsF), 64))
-		if fr := bitsF - math.Floor(bitsF); c.FP == 0 && (fr < 1e-5 || fr > 1-1e-5) && (prec == wantp+1 || prec == wantp-1) {
-			wantp = prec // the product is too close to an integer for float64 arithmetic to decide the ceiling
+		wantp := uint(h.CeilLog2_10(uint64(c.X.P)))
+		if wantp < 64 {
+			wantp = 64
 		}
 		if c.FP > 0 && prec != c.FP || c.FP == 0 && prec != wantp {
 			return h.Failf("attrs", "Float(%v) (precision %d) into a destination of precision %d: result precision %d (documented max(ceil(x.Prec()*log2(10)), 64) = %d)", xv, c.X.P, c.FP, prec, wantp)
@@ -655,7 +671,7 @@ func checkSetFloatExtreme(c C15Case, o *h.Obs, z *decimal.Decimal) *h.Fail {
 	o.NonTrivial()
 	wantPrec := c.P
 	if wantPrec == 0 {
-		wantPrec = uint(math.Ceil(float64(c.FP) * (math.Ln2 / math.Ln10)))
+		wantPrec = uint(h.CeilLog10_2(uint64(c.FP)))
 	}
 	if got.Form != model.Finite || got.Neg != (m.Sign() < 0) {
 		return h.Failf("class", "SetFloat(%s * 2^%d) (a finite value of about 10^%d) = %v", h.FirstN(c.FM, 40), c.FE, int64(float64(c.FE+m.BitLen())*0.30103), got.Val())
